@@ -25,7 +25,9 @@ COMMON_ASSUMPTIONS = [
     "children obey the Future/Stream contract except where the alphabet says otherwise (stale, repeated and in-poll wake-ups are explored; re-entrant parent wakers are not)",
     "behaviours needing more children, Pending answers, items, operations or deviations than the listed bounds are not covered",
     "the harness (polldfs core: chooser, scripted children, monitors, reference models) is trusted; every reported failure is replayed twice and must reproduce identically",
-    "no allocation failure, no panics inside Drop impls of children",
+    "no allocation failure, no panics inside Drop impls of children (destructors that wake a sibling are part of the alphabet: dw)",
+    "containers are at most 200 (Vec), 65 (array), 12 (tuple), 16 (group members) wide: a defect that needs more - e.g. 65 536 children for a 16-bit truncation - is outside every suite",
+    "scripted streams report honest size hints (upper bound = items still available) unless sh=0; hints that lie are outside the Stream contract and not explored",
 ]
 
 FUT_CONT = {"join": ["vec", "array", "tuple", "ext"], "try_join": ["vec", "array", "tuple"], "race": ["vec", "array", "tuple", "ext"], "race_ok": ["vec", "array", "tuple"]}
@@ -251,7 +253,10 @@ def dropwake_items(tier, **extra):
             items += strm(fam, cont, 2, p=1, i=1, dw=1, sp=1, **extra)
             items += strm(fam, cont, 3, p=1, i=1, dw=1, **extra)
     for fam in ("fgroup", "sgroup"):
-        items += grp(fam, init=2, mm=3, ops=1, p=1, i=1 if fam == "sgroup" else None, dw=1, **extra)
+        sg = fam == "sgroup"
+        items += grp(fam, init=2, mm=3, ops=1, p=1, i=1 if sg else None, dw=1, **extra)
+        # a member removed (or the whole group dropped) while a sibling is parked: its destructor wakes the sibling
+        items += grp(fam, keyed=1, init=2, mm=3, ops=2, p=1, i=1 if sg else None, dw=1, dr=1, dev=4, **extra)
     return items
 
 
@@ -347,6 +352,7 @@ def plan_C02(tier):
         items += groups_small(tier, dr=1, pa=1)
         items += wide("fut", list(FUT_CONT), tier, dr=1, pa=1)
         items += wide("str", list(STR_CONT), tier, dr=1, pa=1)
+    items += dropwake_items(tier, st=1)
     stacks = ("", "m", "e", "lt", "ml") if tier == "quick" else ("", "m", "e", "t", "l", "lt", "ml", "me", "mm", "mlt")
     items += co_small(tier, ["for_each", "try_for_each", "collect", "collect_result"], stacks=stacks, lm=1, tn=1, dr=1, pa=1)
     plan = {"items": items,
@@ -517,6 +523,7 @@ def plan_C11(tier):
         items += grp("fgroup", keyed=1, nv=nv, init=2, mm=4, ops=3, p=1, st=1, sp=1, dev=4 if quick else 5)
     for n in (11, 16):
         items += grp("fgroup", keyed=1, init=n, mm=n + 1, ops=1, rm=0, p=1, dev=2)
+    items += [it for it in dropwake_items(tier) if "fam=fgroup" in it[2]]
     if not quick:
         items += grp("fgroup", init=1, mm=4, ops=4, p=1, st=1, sp=1, dr=1, dev=6)
         items += grp("fgroup", keyed=1, init=0, mm=4, ops=8, p=1, ext=1, rs=1, dev=6)
@@ -534,6 +541,7 @@ def plan_C12(tier):
     items += grp("sgroup", cap=2, init=2, mm=4, ops=3, rs=1, p=1, i=1, sp=1, dev=5 if quick else 6)
     items += grp("sgroup", init=3, mm=3, ops=1, p=1, i=2, st=1, dev=5 if quick else 7)
     items += grp("sgroup", init=3, mm=3, ops=0, p=0, i=2)
+    items += [it for it in dropwake_items(tier) if "fam=sgroup" in it[2]]
     # many members ending in the same poll (beyond the inline capacity of the key-removal queue), then refilled
     for n in (11, 12, 16):
         items += grp("sgroup", init=n, mm=n, ops=0, p=0, i=0)
